@@ -101,17 +101,18 @@ type fakeConn struct {
 	rdl  time.Time
 	wdl  time.Time
 
-	inbuf       []byte
-	peerClosed  bool
-	readTimeout bool
-	closed      bool
-	closeErr    bool // Close() closes the connection but reports an error (as a TLS close_notify can)
-	closeCount  int
-	peerReads   bool
-	received    []byte
-	writeErr    error
-	blocked     int
-	writesTried int
+	inbuf        []byte
+	peerClosed   bool
+	readTimeout  bool
+	writeTimeout bool // the write deadline expired (until a new deadline is set)
+	closed       bool
+	closeErr     bool // Close() closes the connection but reports an error (as a TLS close_notify can)
+	closeCount   int
+	peerReads    bool
+	received     []byte
+	writeErr     error
+	blocked      int
+	writesTried  int
 }
 
 func newFakeConn(id int, peerReads bool, clk *vclock) *fakeConn {
@@ -156,6 +157,9 @@ func (c *fakeConn) Write(p []byte) (int, error) {
 		if c.writeErr != nil {
 			return 0, c.writeErr
 		}
+		if c.writeTimeout {
+			return 0, timeoutErr{}
+		}
 		if c.peerReads {
 			c.received = append(c.received, p...)
 			return len(p), nil
@@ -195,6 +199,7 @@ func (c *fakeConn) SetDeadline(t time.Time) error {
 }
 func (c *fakeConn) SetReadDeadline(t time.Time) error {
 	c.mu.Lock()
+	c.readTimeout = false // a new deadline is armed: an earlier expiry no longer applies
 	c.rdl = t
 	c.cond.Broadcast()
 	c.mu.Unlock()
@@ -202,6 +207,7 @@ func (c *fakeConn) SetReadDeadline(t time.Time) error {
 }
 func (c *fakeConn) SetWriteDeadline(t time.Time) error {
 	c.mu.Lock()
+	c.writeTimeout = false
 	c.wdl = t
 	c.cond.Broadcast()
 	c.mu.Unlock()
@@ -225,6 +231,12 @@ func (c *fakeConn) peerClose() { c.mu.Lock(); c.peerClosed = true; c.cond.Broadc
 func (c *fakeConn) fireReadTimeout() {
 	c.mu.Lock()
 	c.readTimeout = true
+	c.cond.Broadcast()
+	c.mu.Unlock()
+}
+func (c *fakeConn) fireWriteTimeout() {
+	c.mu.Lock()
+	c.writeTimeout = true
 	c.cond.Broadcast()
 	c.mu.Unlock()
 }
@@ -351,6 +363,7 @@ func faultCase(k *engine.Case) {
 	}
 	var ss []*sess
 	frameNo := 0
+	bigFrames := r.Intn(3) == 0 // frames of 50-450 bytes: backlogs of several KiB
 	k.Logf("sessions=%d", ns)
 	for i := 0; i < ns; i++ {
 		x := &sess{id: i, peerReads: r.Intn(4) != 0}
@@ -475,7 +488,11 @@ func faultCase(k *engine.Case) {
 			frames := make([][]byte, a.n)
 			for i := range frames {
 				frameNo++
-				frames[i] = []byte(fmt.Sprintf("<s%d#%d>", x.id, frameNo))
+				pad := 0
+				if bigFrames {
+					pad = 40 + r.Intn(400)
+				}
+				frames[i] = []byte(fmt.Sprintf("<s%d#%d%s>", x.id, frameNo, strings.Repeat(".", pad)))
 			}
 			a.do = func() {
 				for _, f := range frames {
@@ -494,7 +511,7 @@ func faultCase(k *engine.Case) {
 		case evReadTimeout:
 			a.do = func() { x.conn.fireReadTimeout() }
 		case evWriteTimeout:
-			a.do = func() { x.conn.failWrites(timeoutErr{}) }
+			a.do = func() { x.conn.fireWriteTimeout() }
 		case evFailWrite:
 			a.do = func() { x.conn.failWrites(errWriteFault) }
 		case evHandlerErr:
@@ -545,7 +562,12 @@ func faultCase(k *engine.Case) {
 			if x.pending == 0 {
 				x.ended = true
 			}
-		case evWriteTimeout, evFailWrite:
+		case evWriteTimeout:
+			// the deadline of the write in progress expires; the next write arms a new deadline
+			if x.pending > 0 {
+				x.ended = true
+			}
+		case evFailWrite:
 			x.writeBroken = true
 			if x.pending > 0 {
 				x.ended = true
@@ -694,7 +716,18 @@ func faultCase(k *engine.Case) {
 				}
 				must := false
 				onlyBenign := true
+				dataRaces := false // bytes arriving in the same burst can satisfy the read before its deadline is seen
 				for _, a := range as {
+					if a.ev == evDeliverOK {
+						dataRaces = true
+					}
+				}
+				rtOnly := false
+				for _, a := range as {
+					if a.ev == evReadTimeout && dataRaces {
+						rtOnly = true
+						continue
+					}
 					if alwaysTerminates(a.ev) {
 						must = true
 					}
@@ -702,25 +735,44 @@ func faultCase(k *engine.Case) {
 						onlyBenign = false
 					}
 				}
-				hasClose, hasSend, hasFault := false, false, false
+				hasClose, hasSend, hasFault, hasWT := false, false, false, false
 				for _, a := range as {
 					switch a.ev {
 					case evClose:
 						hasClose = true
 					case evSend:
 						hasSend = true
-					case evWriteTimeout, evFailWrite:
+					case evFailWrite:
 						hasFault = true
+					case evWriteTimeout:
+						hasWT = true
 					}
 				}
 				switch {
 				case must:
 					x.ended = true
+				case rtOnly:
+					// read timeout racing with arriving data: the read may be served first and a new
+					// deadline armed; adopt the outcome (sticky facts below)
+					if hasClose {
+						x.closedLocal = true
+					}
+					if hasFault {
+						x.writeBroken = true
+					}
+					if hasSend && !x.peerReads {
+						x.pending += len(x.accepted) - befores[x]
+					}
+					x.uncertain = true
 				case onlyBenign:
 					// sends to a healthy reading peer / ok bytes: nothing ends
 				case len(as) == 1:
 					model(as[0], befores[x])
-				case hasClose && !hasFault && x.peerReads && !x.writeBroken:
+				case hasWT && x.peerReads && !x.writeBroken && !hasFault && !hasClose:
+					// a write timeout racing with sends to a reading peer: a write that happens to be in
+					// progress may fail (session ends) or nothing happens; adopt the outcome
+					x.uncertain = true
+				case hasClose && !hasFault && !hasWT && x.peerReads && !x.writeBroken:
 					// local Close racing with sends to a reading peer: the session ends, and every
 					// frame whose Send returned nil must have been flushed (judged below)
 					x.closedLocal = true
@@ -728,7 +780,7 @@ func faultCase(k *engine.Case) {
 					if x.events == 0 {
 						x.events = 1
 					}
-				case hasClose && !hasSend && x.pending == 0:
+				case hasClose && !hasSend && !hasWT && x.pending == 0:
 					// Close (with or without a write fault) and nothing queued: the session ends
 					x.closedLocal = true
 					if hasFault {
@@ -1150,7 +1202,10 @@ func tcpFlushCase(k *engine.Case) {
 	s := stcp.NewSession(mgr, a.c)
 	s.Start()
 	frames := 64 + r.Intn(200)
-	fsize := []int{4 << 10, 16 << 10, 32 << 10, 64 << 10}[r.Intn(4)]
+	fsize := []int{100, 1000, 4 << 10, 16 << 10, 32 << 10, 64 << 10}[r.Intn(6)]
+	if fsize < 4<<10 {
+		frames = 1000 + r.Intn(3000) // many small packets
+	}
 	lateStart := time.Duration(r.Intn(40)) * time.Millisecond
 	k.Logf("real TCP session: %d frames of %d bytes (%d KiB) queued, then Close(); the peer starts reading after %v and pauses 1 ms every 64 KiB", frames, fsize, frames*fsize>>10, lateStart)
 	k.Nontrivial()
